@@ -36,7 +36,7 @@ VALID_OPTS = [('numprocesses', 2), ('warmup_delay', 0.5), ('graceful_timeout', 3
 # values that pass validate_option but fail when applied
 APPLY_FAIL = [('uid', 'nosuchuser_zz'), ('gid', 'nosuchgroup_zz'), ('hooks.before_start', 'no.such.module.fn'),
               ('stdout_stream.class', 'NoSuchStreamClass'), ('stop_signal', 999999)]
-TYPE_FAIL = [('numprocesses', 'two'), ('warmup_delay', 'x'), ('send_hup', 'yes'), ('env', {'K': 1}),
+TYPE_FAIL = [('stop_signal', 'SIGNOSUCHSIGNAL'), ('stop_signal', 'kill9'), ('numprocesses', 'two'), ('warmup_delay', 'x'), ('send_hup', 'yes'), ('env', {'K': 1}),
              ('env', 'K=v'), ('nosuchkey', 1), ('stop_signal', 'TERM'), ('hooks', {'nosuchhook': 'a.b'}),
              ('stdout_stream', {'noclass': 1}), ('rlimit_nosuch', 5), ('max_retry', 1.5), ('graceful_timeout', None)]
 
@@ -46,6 +46,7 @@ def templates(names, pids):
     t = [
         ('incr', {'name': n, 'nb': 1}), ('decr', {'name': n, 'nb': 1}),
         ('set', {'name': n, 'options': {'warmup_delay': 0.7}}),
+        ('set', {'name': n, 'options': {'numprocesses': 3}}),
         ('set', {'name': n, 'options': dict(VALID_OPTS[:3])}),
         # options whose change makes the watcher reload its workers
         ('set', {'name': n, 'options': {'graceful_timeout': 2.0, 'env': {'K': 'v'}}}),
@@ -189,6 +190,22 @@ def run_case(spec):
     return res
 
 
+def _only_validation_class(options):
+    """does the request carry an option that validation refuses (bad type / key / signal) and none of the values that
+    pass validation and fail when applied (the known mechanism)?"""
+    def hashable(v):
+        try:
+            hash(v)
+            return True
+        except TypeError:
+            return False
+    tf = [(k, v) for k, v in options.items() if any(k == tk and hashable(v) and hashable(tv) and v == tv for tk, tv in TYPE_FAIL)
+          or k in ('nosuchkey', 'NumProcesses', '')]
+    af = [(k, v) for k, v in options.items() if any(k == ak and v == av for ak, av in APPLY_FAIL)
+          or (k.startswith('hooks.') and not isinstance(v, str))]
+    return bool(tf) and not af
+
+
 def snap(w):
     s = w.snapshot(with_stats=True)
     led = sum(1 for e in w.kernel.log if e[1] in ('spawn', 'signal'))
@@ -279,6 +296,13 @@ def _world(w, h, rnd, reqs, res, done):
                     elif b2 == a2 and rep.get('errno') == 3:
                         # errno 3 = MESSAGE_ERROR: the request was refused by *validation*, yet something was applied
                         mech = 'applied-although-refused-by-validation'
+                    elif b2 == a2 and len(props['options']) == 1:
+                        # one option only, and it is the one that was refused: nothing "before the failing one"
+                        mech = 'the-refused-option-itself-was-stored'
+                    elif b2 == a2 and _only_validation_class(props['options']):
+                        # an option that validation is documented to refuse (bad type, bad key, bad signal) was only
+                        # caught while the options were being applied
+                        mech = 'invalid-option-caught-only-at-apply-time'
                     elif b2 == a2 and len(props['options']) >= 1 and not any(o.startswith('conflict') for o in ops):
                         # the known mechanism needs an option that passes validation and fails when applied
                         mech = 'options-applied-one-by-one'
